@@ -28,7 +28,10 @@ PREFIX = "{{{USER_"
 
 def camel(r, n=None):
     n = n or r.choice([1, 1, 2, 2, 3])
-    return "".join(r.choice(WORDS) for _ in range(n))
+    w = "".join(r.choice(WORDS) for _ in range(n))
+    # the keyword words only ever occur inside longer names: a namespace or class called just `none` / `True`
+    # is a reserved word of the target language or of boost::sml, not an input of the properties
+    return ("X" + w) if w.lower() in ("none", "null", "true") else w
 
 
 _EATEN = None
